@@ -186,7 +186,14 @@ func runC20(r *core.Run) int {
 		if i%3 == 0 {
 			// a leading literal run long enough for the prefix searches and the raw-string filter
 			t := &gen.T{R: rng, Let: g.P.Letters}
-			root = gen.Cat(gen.S(string([]rune{g.P.Letters[0], g.P.Letters[1%len(g.P.Letters)], g.P.Letters[rng.Intn(len(g.P.Letters))]})), g.Alt(g.P.Depth))
+			lead := []rune{g.P.Letters[0], g.P.Letters[1%len(g.P.Letters)], g.P.Letters[rng.Intn(len(g.P.Letters))]}
+			if rng.Intn(2) == 0 {
+				// long enough for the word-at-a-time comparisons of the raw-string filters (8 bytes and more)
+				for k := rng.Intn(14); k > 0; k-- {
+					lead = append(lead, g.P.Letters[rng.Intn(len(g.P.Letters))])
+				}
+			}
+			root = gen.Cat(gen.S(string(lead)), g.Alt(g.P.Depth))
 			_ = t
 		} else {
 			root = g.Alt(g.P.Depth)
@@ -273,7 +280,7 @@ func runC20(r *core.Run) int {
 	})
 	r.Extras["bounds"] = map[string]any{"patterns": nPat, "inputs_per_pattern": nDirected, "input_flips": 3, "pattern_flips": 3}
 	return r.Finish(
-		"random ASTs compiled with IgnoreCase (some RightToLeft / Multiline) over simple-pair letters (ASCII without k and s, Latin-1, Greek, Cyrillic): literal runs, leading literals for the prefix searches, classes, negated classes, subtractions, ranges inside one letter run, back-references; per (pattern,input): FindStringMatch == FindRunesMatch, three random case flips of the input letters and three random case flips of the pattern's literal letters / class members / range endpoints must all give the same match position and captures; non-trivial = distinct (pattern,input) that matches",
+		"random ASTs compiled with IgnoreCase (some RightToLeft / Multiline) over simple-pair letters (ASCII without k and s, Latin-1, Latin Extended-A, Greek, Cyrillic, Armenian, fullwidth, circled letters (So), Roman numerals (Nl), Greek with title-case partners (Lt), Deseret from the supplementary planes): literal runs, leading literals for the prefix searches, classes, negated classes, subtractions, ranges inside one letter run, back-references; per (pattern,input): FindStringMatch == FindRunesMatch, three random case flips of the input letters and three random case flips of the pattern's literal letters / class members / range endpoints must all give the same match position and captures; non-trivial = distinct (pattern,input) that matches",
 		[]string{"only letters whose case-fold orbit is a simple upper/lower pair are flipped, as the property states"},
 		map[string]int64{"evaluations": 50000, "distinct_nontrivial": 5000, "flip_pattern": 10000, "flip_input": 10000})
 }
